@@ -1,77 +1,31 @@
 (* C16 on FILES: the arc reader applied to any byte string that conforms to the bin-archive format
-   (Proofs/BinFormatSpec.v: [conforms LE f c]) with a content c laid out as an arc.  Combines
-   C01's parser correctness (through Proofs/TextBinBridge.v: parsed_obs_equal) with the archive-level
-   theorems of Proofs/ArcProofs.v; no premise about BinFormat.from_bytes is left. *)
+   (Proofs/BinFormatSpec.v: [conforms LE f c]).  Combines C01's parser correctness (through
+   Proofs/TextBinBridge.v: parsed_obs_equal) with the archive-level theorems of Proofs/ArcProofs.v; no premise about
+   BinFormat.from_bytes is left.  Since the repair 10408e9 (find_label_address = lowest address carrying the label) the
+   transfer needs no uniqueness of the Count / Info labels. *)
 From Coq Require Import List NArith ZArith Bool Lia ZifyBool ZifyNat ZifyN.
 From Mila Require Import Lib.Bytes Lib.Machine Model.BinArchive Model.BinStreams Model.BinFormat Model.Arc
-  Proofs.AMapLemmas Proofs.BinFormatSpec Proofs.BinParserCorrect Proofs.ObsEqual Proofs.TextBinBridge Proofs.ArcProofs.
+  Proofs.AMapLemmas Proofs.BinFormatSpec Proofs.BinParserCorrect Proofs.FindLabel Proofs.ObsEqual Proofs.TextBinBridge Proofs.ArcProofs.
 Import ListNotations.
 Local Open Scope N_scope.
 
+(* the general transfer: on EVERY conforming file the byte-level reader is the archive-level reader applied to the
+   content - so every archive-level theorem (extraction, the four errors, offset overflow, totality) speaks about files *)
+Theorem arc_file_reads_content m f c :
+  conforms LE f c -> arc_from_bytes m f = arc_from_archive m (content_archive LE c).
+Proof.
+  intros Hc. destruct (parsed_obs_equal LE f c Hc) as (a & Hp & He & Ho).
+  unfold arc_from_bytes. rewrite Hp. cbn [bind]. exact (arc_from_archive_obs_equal m (content_archive LE c) a Ho He).
+Qed.
+
 Theorem arc_extract_from_file m f c files :
   conforms LE f c -> arc_layout (content_archive LE c) files -> arc_from_bytes m f = Ok files.
-Proof.
-  intros Hc Hl. destruct (parsed_obs_equal LE f c Hc) as (a & Hp & He & Ho).
-  unfold arc_from_bytes. rewrite Hp. cbn [bind].
-  pose proof Hl as (cc & i & w0 & recs & Hcount & Hinfo & _).
-  rewrite (arc_from_archive_obs_equal m (content_archive LE c) a cc i Ho He Hcount Hinfo).
-  apply arc_extract. exact Hl.
-Qed.
+Proof. intros Hc Hl. rewrite (arc_file_reads_content m f c Hc). apply arc_extract. exact Hl. Qed.
 
-(* membership in label_addrs only depends on the label map as a map *)
-Lemma label_addrs_incl a a' l :
-  NoDup (am_keys (a_labels a')) -> (forall x, am_get x (a_labels a') = am_get x (a_labels a)) ->
-  forall y, In y (label_addrs a' l) -> In y (label_addrs a l).
-Proof.
-  intros Hnd Hget y Hy. apply label_addrs_in in Hy. destruct Hy as (b & Hin & Hb).
-  assert (G : am_get y (a_labels a) = Some b) by (rewrite <- Hget; apply am_in_get; assumption).
-  apply am_get_in in G. apply label_addrs_in. exists b. auto.
-Qed.
-
-Section Errors.
-  Variables (m : mode) (f : bytes) (c : content).
-  Hypothesis Hc : conforms LE f c.
-
-  Lemma conforms_label_keys : NoDup (am_keys (c_labels c)).
-  Proof.
-    destruct Hc as (reserved & ptab & ltab & txt & names & H). cbn zeta in H.
-    destruct H as (_ & _ & _ & _ & _ & _ & _ & _ & _ & _ & _ & (Hk & _)). exact Hk.
-  Qed.
-
-  (* an image lacking the Count label / the Info label *)
-  Theorem arc_file_no_count : label_addrs (content_archive LE c) COUNT = [] -> arc_from_bytes m f = Err ENoCount.
-  Proof.
-    intros H0. destruct (parser_correct LE f c Hc) as (a & Hp & _ & _ & _ & _ & _ & Gl & _ & _ & N3).
-    unfold arc_from_bytes. rewrite Hp. cbn [bind]. apply arc_no_count.
-    destruct (label_addrs a COUNT) as [|y r] eqn:E; [reflexivity|]. exfalso.
-    assert (Hy : In y (label_addrs (content_archive LE c) COUNT)).
-    { apply (label_addrs_incl (content_archive LE c) a COUNT N3 Gl). rewrite E. left. reflexivity. }
-    rewrite H0 in Hy. exact Hy.
-  Qed.
-  Theorem arc_file_no_info :
-    label_addrs (content_archive LE c) COUNT <> [] -> label_addrs (content_archive LE c) INFO = [] -> arc_from_bytes m f = Err ENoInfo.
-  Proof.
-    intros H1 H0. destruct (parser_correct LE f c Hc) as (a & Hp & _ & _ & _ & _ & _ & Gl & _ & _ & N3).
-    unfold arc_from_bytes. rewrite Hp. cbn [bind]. apply arc_no_info.
-    - destruct (label_addrs (content_archive LE c) COUNT) as [|y r] eqn:E; [congruence|]. intros E'.
-      assert (Hy : In y (label_addrs a COUNT)).
-      { apply (label_addrs_incl a (content_archive LE c) COUNT conforms_label_keys); [intros x; symmetry; apply Gl|]. rewrite E. left. reflexivity. }
-      rewrite E' in Hy. exact Hy.
-    - destruct (label_addrs a INFO) as [|y r] eqn:E; [reflexivity|]. exfalso.
-      assert (Hy : In y (label_addrs (content_archive LE c) INFO)).
-      { apply (label_addrs_incl (content_archive LE c) a INFO N3 Gl). rewrite E. left. reflexivity. }
-      rewrite H0 in Hy. exact Hy.
-  Qed.
-End Errors.
-
-(* the general transfer: on every conforming file whose content carries Count and Info on exactly one address each, the
-   byte-level reader is the archive-level reader applied to the content - so EVERY archive-level theorem (extraction, record
-   without a name, range leaving the data region, offset overflow, totality) speaks about files *)
-Theorem arc_file_reads_content m f c cc i :
-  conforms LE f c -> label_addrs (content_archive LE c) COUNT = [cc] -> label_addrs (content_archive LE c) INFO = [i] ->
-  arc_from_bytes m f = arc_from_archive m (content_archive LE c).
-Proof.
-  intros Hc Hcount Hinfo. destruct (parsed_obs_equal LE f c Hc) as (a & Hp & He & Ho).
-  unfold arc_from_bytes. rewrite Hp. cbn [bind].
-  exact (arc_from_archive_obs_equal m (content_archive LE c) a cc i Ho He Hcount Hinfo).
-Qed.
+(* an image lacking the Count label / the Info label *)
+Theorem arc_file_no_count m f c : conforms LE f c ->
+  label_addrs (content_archive LE c) COUNT = [] -> arc_from_bytes m f = Err ENoCount.
+Proof. intros Hc H0. rewrite (arc_file_reads_content m f c Hc). apply arc_no_count. exact H0. Qed.
+Theorem arc_file_no_info m f c : conforms LE f c ->
+  label_addrs (content_archive LE c) COUNT <> [] -> label_addrs (content_archive LE c) INFO = [] -> arc_from_bytes m f = Err ENoInfo.
+Proof. intros Hc H1 H0. rewrite (arc_file_reads_content m f c Hc). apply arc_no_info; assumption. Qed.
